@@ -272,7 +272,7 @@ DEFECTS = ["missing_value", "missing_value_loop", "missing_value_table", "dup_sc
            "unclosed_text", "unclosed_triple", "missing_space_qq", "missing_space_qname", "missing_space_list", "stray_cbracket", "stray_cbrace",
            "missing_cbracket", "missing_cbrace", "missing_key", "missing_key_bare", "null_key", "unquoted_key", "text_key", "reserved_data",
            "reserved_stop", "reserved_global", "unexpected_value", "unexpected_value_q", "unexpected_term", "no_frame_term", "nested_frame",
-           "eof_in_frame", "overlength", "maxlength", "disallowed_char", "disallowed_char_cmt", "disallowed_del", "no_block_header"]
+           "eof_in_frame", "overlength", "maxlength", "overlength_u4", "maxlength_u4", "long_u4_value", "disallowed_char", "disallowed_char_cmt", "disallowed_del", "no_block_header"]
 
 
 def c12(tier, replay=None):
